@@ -108,11 +108,25 @@ def gen(rng, k, dll=None, big=False, presend=False, sync_paced=False):
         if n < 5:
             sc['size'] = size = unit * rng.randint(5, 9) - rng.randint(0, unit - 1)
             n = (size + unit - 1) // unit
+    if presend and fd and role == 'stack-originator' and not bam and 'prior_from' not in sc and not plan.get('sync') and not big and k % 3 == 0:
+        # the application submits its NEXT message (same group, same size, other bytes) to the same responder as soon as the
+        # end-of-message status of the first has gone out — the responder acknowledges 150 ms later, while the second transfer
+        # is under way: the reference decoder gets both, each intact
+        sc['followup'] = True
+        if sc.get('presend', 0) > 5:
+            sc['presend'] = 5                # (leave a session number for it: 8 in all)
+        plan['reply_delay'] = 150000
+        plan['windows'] = windows = [rng.choice([1, 2])]
+        if n < 4:
+            sc['size'] = size = unit * rng.randint(4, 7) - rng.randint(0, unit - 1)
+            n = (size + unit - 1) // unit
     biv = bam_iv if bam_iv is not None else (0.05 if not fd else 0.01)
     wmin = max(1, min(min(windows), max_cmdt or 255, plan['limit']))     # the RTS limit (either side's) clips every window
     nwin = (n + wmin - 1) // wmin
     dur = n * (max(int(biv * 1e6), plan['dt_gap'], int((cmdt_iv or 0) * 1e6)) + 12000) \
         + nwin * (plan['reply_delay'] + (max(holds) + 1) * plan['hold_gap'] + 20000) + 5_000_000
+    if sc.get('followup'):
+        dur = 2 * dur
     if 'prior_from' in sc:
         dur += 3 * (max(int(biv * 1e6), int((cmdt_iv or 0) * 1e6)) + 12000) + 3 * (plan['reply_delay'] + (max(holds) + 1) * plan['hold_gap'] + 20000) + 1_000_000
     sc['horizon'] = min(dur, 400_000_000)
@@ -160,6 +174,15 @@ def runner(sc):
                 sim.at(1000, prior)
             else:
                 sim.at(1000, go)
+            if sc.get('followup'):
+                res.follow = [x ^ 0x5A for x in data]
+
+                def watch():
+                    if pr.delivered:
+                        res.follow_ret = st.send_pgn(sc['dp'], sc['pf'], ps, sc['prio'], STACK_ADDR, list(res.follow))
+                    else:
+                        sim.at(sim.now + 300, watch)
+                sim.at(1200, watch)
         else:
             plan['payload'] = data
             plan['dest'] = 255 if sc['bam'] else STACK_ADDR
@@ -217,6 +240,13 @@ def oracle_c03(sc, res):
             pd = [d for d in res.peer['delivered'] if d['sa'] == OTHER_ADDR]
             if getattr(res, 'prior_ret', None) is not True or len(pd) != 1 or pd[0]['data'] != res.prior:
                 v.append(dict(kind='reference-decoder-did-not-get-the-earlier-message-from-the-other-address', n=len(pd), ret=str(getattr(res, 'prior_ret', None))))
+        if sc.get('followup'):
+            if getattr(res, 'follow_ret', None) is not True:
+                v.append(dict(kind='message-submitted-before-the-acknowledgement-refused', ret=str(getattr(res, 'follow_ret', None))))
+            elif len(dl) != 2 or dl[1]['data'] != res.follow or dl[1]['pgn'] != pgn:
+                v.append(dict(kind='reference-decoder-did-not-get-the-message-submitted-before-the-acknowledgement-of-the-one-before',
+                              n=len(dl), aborts=res.peer['aborts'][:2]))
+            dl = dl[:1]
         if len(dl) != 1:
             v.append(dict(kind='reference-decoder-did-not-get-the-message', n=len(dl), log=res.peer['log'][:3], aborts=res.peer['aborts'][:2]))
         else:
